@@ -43,7 +43,7 @@ class Lin(Sym):
             s = (s + " + " if s else "") + str(self.c)
         return "(" + s + ")"
 
-    def combine(self, other, sign):
+    def combine(self, other, sign, ty=None):
         o = Lin.of(other)
         t = dict(self.terms)
         for i, (a, k) in o.terms.items():
@@ -51,7 +51,7 @@ class Lin(Sym):
                 t[i] = (a, t[i][1] + sign * k)
             else:
                 t[i] = (a, sign * k)
-        r = Lin(t, self.c + sign * o.c, self.ty)
+        r = Lin(t, self.c + sign * o.c, ty or self.ty)
         if not r.terms:
             return r.c
         return r
@@ -84,7 +84,7 @@ class Lin(Sym):
     def cmp_with(self, I, op, other):
         if isinstance(other, float):
             return None
-        d = self.combine(other, -1)
+        d = self.combine(other, -1, ty="i128")   # the difference may be negative: do not clamp to usize
         if not is_sym(d):
             return {"Lt": d < 0, "Le": d <= 0, "Gt": d > 0, "Ge": d >= 0, "Eq": d == 0, "Ne": d != 0}[op]
         lo, hi = bounds(d)
@@ -1479,3 +1479,36 @@ def _vec_last_mut(I, f, a):
 @model("std::vec::Vec::<T, A>::first", "core::slice::<impl [T]>::first_mut")
 def _vec_first(I, f, a):
     return MODELS["core::slice::<impl [T]>::first"](I, f, a)
+
+
+def _stacklen_on_switch(self, I, targets, otherwise):
+    for val, bb in sorted(targets):
+        if self._cmp(I, "Eq", val, False):
+            return bb
+    return otherwise
+
+
+StackLen.on_switch = _stacklen_on_switch
+
+
+def _resolving_on_switch(self, I, targets, otherwise):
+    v = self.resolve(I)
+    for val, bb in targets:
+        if val == v:
+            return bb
+    return otherwise
+
+
+MemoLen.on_switch = _resolving_on_switch
+LazyInt.on_switch = _resolving_on_switch
+
+
+@model("<std::collections::HashMap<K, V, S, A> as std::ops::Index<&Q>>::index")
+def _hm_index(I, f, a):
+    m = deref(I, a[0])
+    k = deref(I, a[1])
+    r = m.get(I, k)
+    if is_some(r):
+        return r.fields[0]
+    I.run.panics.append(("hashmap_index_missing_key", I.where()))
+    raise PathEnd("panic", "HashMap index: no entry found for key")
